@@ -113,6 +113,18 @@ def run(ctx):
             fs = dict(ps.created); fs[ps.paths[a]], fs[ps.paths[b]] = fs[ps.paths[b]], fs[ps.paths[a]]
             extra_cases.append({"set": ps, "desc": "swap:%s,%s" % (a, b), "fs": fs, "vline": L.line_verify("p2", "mem", ps.index, 1, fs)})
         extra_cases.append({"set": ps, "desc": "intact", "fs": dict(ps.created), "vline": L.line_verify("p2", "mem", ps.index, 1, ps.created)})
+    # recovery files that begin with packets of ANOTHER recovery set (two volumes concatenated, a legal layout):
+    # the blocks of this set behind them still count
+    withvols = [ps for ps in seen_sets if ps.created is not None and ps.volumes and not getattr(ps, "rowswap", False)]
+    for k, ps in enumerate(withvols[:(6 if ctx.tier != "thorough" else 30)]):
+        other = withvols[(k + 1) % len(withvols)]
+        if other is ps or other.created[other.index] == ps.created[ps.index]:
+            continue
+        v = ps.volumes[k % len(ps.volumes)]
+        fs = dict(ps.created); fs[v] = other.created[other.volumes[0]] + ps.created[v]
+        extra_cases.append({"set": ps, "desc": "foreign-packets-first:" + v.rsplit("/", 1)[1], "fs": fs, "vline": L.line_verify("p2", "mem", ps.index, 1, fs)})
+        fs = dict(ps.created); fs[v] = ps.created[v] + other.created[other.volumes[0]] + ps.created[v]
+        extra_cases.append({"set": ps, "desc": "foreign-packets-between:" + v.rsplit("/", 1)[1], "fs": fs, "vline": L.line_verify("p2", "mem", ps.index, 1, fs)})
     allc = [c for c in cases] + extra_cases
     vi, vm = P.run_both(ctx, vh, model, [c["vline"] for c in allc])
     dist = {"pattern": {}, "clean_reports": 0, "clean_but_damaged": 0, "all_slices_usable_but_files_wrong": 0}
